@@ -83,6 +83,19 @@ def unit_call(i, kind, prefix=""):
     raise ValueError(kind)
 
 
+LOOP_HAZARDS = {
+    # loops left or continued from inside the branches of an if / else if / else chain: legal, print nothing, and must leave
+    # the frames of the enclosing function (or module) exactly as they were
+    "break_elseif": ["hw = 0", "while hw < 5 {", "\tif hw == 9 {", "\t\thw = 0", "\t} else if hw == 2 {", "\t\tbreak", "\t}", "\thw = hw + 1", "}"],
+    "continue_elseif": ["hw = 0", "hv = 0", "while hw < 4 {", "\thw = hw + 1", "\tif hw == 9 {", "\t\thv = 1", "\t} else if hw == 2 {", "\t\tcontinue",
+                        "\t}", "\thv = hv + 1", "}"],
+    "break_else": ["hw = 0", "while hw < 5 {", "\tif hw < 2 {", "\t\thw = hw + 1", "\t} else {", "\t\tbreak", "\t}", "}"],
+    "break_from_elseif": ["hv = 0", "from 0 to 6, hi {", "\tif hi == 9 {", "\t\thv = 1", "\t} else if hi == 3 {", "\t\tbreak", "\t}", "\thv = hv + 1", "}"],
+    "break_nested_elseif": ["hw = 0", "while hw < 3 {", "\tif hw == 9 {", "\t\thw = 0", "\t} else if hw == 1 {", "\t\tif hw == 1 {", "\t\t\tbreak", "\t\t}", "\t}",
+                            "\thw = hw + 1", "}"],
+}
+
+
 def render(spec):
     links = spec["links"]
     RD[0] = int(spec.get("rec_depth") or REC_DEPTH)
@@ -113,6 +126,8 @@ def render(spec):
                 body += ["if d > 0 {", "\treturn self(a, d - 1)", "}"]
             elif kind == "recmethod":
                 body += ["if d > 0 {", "\treturn self.m(a, d - 1)", "}"]
+            if inner and spec.get("body_hazard") in LOOP_HAZARDS:
+                body += LOOP_HAZARDS[spec["body_hazard"]]
             body.append('print "in u%d " + a' % i)
             if kind == "closure":
                 body.append("modify cap = cap + 1")
@@ -233,6 +248,9 @@ def render(spec):
         em.code("hz: [int...] = [1, 2, 3, 4]\nhq = hz.map(fn(x: int) -> int {\n\tif hz.len() > 1 {\n\t\thr = hz.remove(0)\n\t}\n\treturn x\n})")
     elif spec.get("hazard") == "filter_shrink":
         em.code("hz: [int...] = [1, 2, 3, 4]\nhq = hz.filter(fn(x: int) -> bool {\n\thz.clear()\n\treturn true\n})")
+    elif spec.get("hazard") in LOOP_HAZARDS:
+        for st in LOOP_HAZARDS[spec["hazard"]]:
+            em.code(st)
     emit_units(em, range(0, split), root_file)
     out = []
     if modtop:
@@ -313,8 +331,15 @@ def render(spec):
                 val = 1 if val >= 0 else 0
         idx = out.index([o for o in out if o.startswith("pre ok")][0])
         out[idx] = "pre ok %d" % val
+    lead = int(spec.get("lead") or 0)
+    apos = pos.get("assert")
+    if lead:
+        # every source file starts with blank lines: positions are those of the file as it is on disk
+        files = {f: "\n" * lead + src for f, src in files.items()}
+        if apos:
+            apos = (apos[0], apos[1] + lead, apos[2])
     return {"files": files, "entry": "main.ms", "expect": [("exact", o) for o in out], "fail": fail, "unordered": False,
-            "stack": stack, "assert_pos": pos.get("assert")}
+            "stack": stack, "assert_pos": apos}
 
 
 def generate(rng, failure=None, depth=None):
@@ -324,7 +349,9 @@ def generate(rng, failure=None, depth=None):
             "split": rng.range(0, n) if (n and rng.chance(1, 2)) else None}
     # where in the innermost body the failing operation sits (None: directly in the body, or in an `if` when a successful pre-run exists)
     # (the property speaks of call depth 0-6; recursion adds a few activations per link, far from the interpreter's stack limit)
-    spec["hazard"] = rng.weighted([(None, 8), ("map_shrink", 1), ("filter_shrink", 1)])
+    spec["hazard"] = rng.weighted([(None, 8), ("map_shrink", 1), ("filter_shrink", 1)] + [(h, 1) for h in sorted(LOOP_HAZARDS)])
+    spec["lead"] = rng.weighted([(0, 5), (1, 1), (2, 1), (7, 1)])
+    spec["body_hazard"] = rng.weighted([(None, 6)] + [(h, 1) for h in sorted(LOOP_HAZARDS)])
     spec["rec_depth"] = rng.weighted([(2, 5), (1, 2), (4, 2), (7, 1)])
     spec["wrap"] = rng.weighted([(None, 4), ("if", 2), ("else", 2), ("while", 2), ("from", 2), ("deep", 1)])
     return spec
@@ -343,7 +370,7 @@ def shrink(spec):
             c = dict(spec)
             c[key] = False
             yield c
-    for key in ("wrap", "hazard"):
+    for key in ("wrap", "hazard", "body_hazard", "lead"):
         if spec.get(key):
             c = dict(spec)
             c[key] = None
